@@ -41,8 +41,9 @@ Proof. exact rot_hw_same_operator. Qed.
 
 (* (2) the model IS the transpiler on all 3 x 256 x 256 immediates in both modes:
    simulation mode passes every rotation through unchanged (the sweep found no
-   deviation), hardware mode emits the model's immediates for d <= 4 and rejects
-   every d > 4 (exhaustive regenerated data). *)
+   deviation), hardware mode emits exactly one rotation with the model's immediates
+   for d <= 4 (no other shape of output anywhere) and rejects every d > 4
+   (exhaustive regenerated data). *)
 Theorem C07_rot_sim_passthrough :
   gen_sim_deviations = [] /\ (forall n d, nv_rot_imm false n d = Some (n, d)).
 Proof. split; [reflexivity | exact nv_rot_imm_sim]. Qed.
@@ -51,12 +52,12 @@ Theorem C07_rot_hw_table :
   forallb (fun l => hw_line_ok (snd (fst l)) (snd l)) gen_hw_lines = true /\
   map (fun l => (fst l)) gen_hw_lines =
     flat_map (fun a => map (fun d => (a, d)) [0; 1; 2; 3; 4]%Z) [AX; AY; AZ] /\
-  gen_hw_accepted_dgt4 = [] /\
+  gen_hw_accepted_dgt4 = [] /\ gen_hw_deviations = [] /\
   (forall n d, nv_rot_imm true n d <> None <-> (0 <= d <= 4)%Z) /\
   gen_sweep_count = (2 * 3 * 256 * 256)%Z.
 Proof.
   split; [vm_compute; reflexivity|]. split; [vm_compute; reflexivity|].
-  split; [reflexivity|]. split; [exact nv_rot_imm_hw_accepts | reflexivity].
+  split; [reflexivity|]. split; [reflexivity|]. split; [exact nv_rot_imm_hw_accepts | reflexivity].
 Qed.
 
 (* Bridge to any ring with a 64th root of unity: evaluation K32 -> R is a ring
